@@ -41,6 +41,8 @@ type ReqSpec struct {
 	Body    []byte
 	Chunks  []int // chunk sizes for chunked framing (remaining bytes go in a last chunk)
 	Close   bool  // the request asks to close the connection afterwards
+	// Trailers follow the last chunk of a chunked body (and are announced in a Trailer header).
+	Trailers H
 }
 
 // ResSpec is one scripted origin response.
@@ -54,6 +56,28 @@ type ResSpec struct {
 	// Fault: "" | "garbage" (bytes that are not HTTP) | "cut" (close after CutAt bytes of the serialized response)
 	Fault string
 	CutAt int
+	// Trailers follow the last chunk of a chunked body (and are announced in a Trailer header).
+	Trailers H
+}
+
+func trailerNames(t H) string {
+	var n []string
+	for _, kv := range t {
+		n = append(n, kv[0])
+	}
+	return strings.Join(n, ", ")
+}
+
+// withTrailers replaces the final CRLF of a chunked body by the trailer fields.
+func withTrailers(chunkedBody []byte, t H) []byte {
+	if len(t) == 0 {
+		return chunkedBody
+	}
+	b := append([]byte{}, chunkedBody[:len(chunkedBody)-2]...)
+	for _, kv := range t {
+		b = append(b, []byte(kv[0]+": "+kv[1]+"\r\n")...)
+	}
+	return append(b, '\r', '\n')
 }
 
 func chunked(body []byte, sizes []int) []byte {
@@ -100,8 +124,11 @@ func (r *ReqSpec) Bytes() []byte {
 		fmt.Fprintf(&b, "Content-Length: %d\r\n\r\n", len(r.Body))
 		b.Write(r.Body)
 	case "chunked":
+		if len(r.Trailers) > 0 {
+			fmt.Fprintf(&b, "Trailer: %s\r\n", trailerNames(r.Trailers))
+		}
 		b.WriteString("Transfer-Encoding: chunked\r\n\r\n")
-		b.Write(chunked(r.Body, r.Chunks))
+		b.Write(withTrailers(chunked(r.Body, r.Chunks), r.Trailers))
 	default:
 		b.WriteString("\r\n")
 	}
@@ -127,8 +154,11 @@ func (r *ResSpec) Bytes(id int) []byte {
 		fmt.Fprintf(&b, "Content-Length: %d\r\n\r\n", len(r.Body))
 		b.Write(r.Body)
 	case "chunked":
+		if len(r.Trailers) > 0 {
+			fmt.Fprintf(&b, "Trailer: %s\r\n", trailerNames(r.Trailers))
+		}
 		b.WriteString("Transfer-Encoding: chunked\r\n\r\n")
-		b.Write(chunked(r.Body, r.Chunks))
+		b.Write(withTrailers(chunked(r.Body, r.Chunks), r.Trailers))
 	case "close":
 		b.WriteString("\r\n")
 		b.Write(r.Body)
@@ -149,6 +179,8 @@ func reason(code int) string {
 		return "Created"
 	case 204:
 		return "No Content"
+	case 302:
+		return "Found"
 	case 304:
 		return "Not Modified"
 	case 404:
